@@ -74,7 +74,9 @@ class C19(scen.WorldProp):
                 "Wheatley.C19.look_to_is_activity",
                 "Wheatley.C19.look_to_is_activity_atomic",
                 "Wheatley.C19.exit_law",
-                "Wheatley.C19.inactivity_is_300s"]
+                "Wheatley.C19.inactivity_is_300s",
+                "Wheatley.C19.server_mode_starts_empty"]
+    generated_deps = ["Constants.lean", "Arith.lean", "HandlerIR.lean", "CliDefaults.lean"]
     quick_budget_s = 150
     level_text = ("theorems: the handlers' lock/cell action sequences, regenerated from bot.py on every run, obey the "
                   "lock discipline; for any number of threads and every schedule at most one is inside a critical "
@@ -124,6 +126,39 @@ class C19(scen.WorldProp):
         # (v) the real server-mode start-up, with the answers to the join arriving at once or a millisecond later
         for i in range(8 if tier == "quick" else 60):
             yield self.startup_case(rng)
+        for i in range(12 if tier == "quick" else 100):
+            yield self.server_cli_case(rng)
+
+    def server_cli_case(self, rng):
+        """`main(["server-mode", room, --port, --id])` up to the construction of the Bot: the constants of
+        server_main against `Cli.serverMain`."""
+        req = {"k": "server_cli", "room": rng.randint(100000000, 999999999)}
+        if rng.random() < 0.9:
+            req["port"] = rng.choice([5000, 8080, 1, 65535, rng.randint(1024, 60000)])
+        if rng.random() < 0.8:
+            req["id"] = rng.randint(0, 99)
+        return req
+
+    def impl_server_cli(self, req):
+        import struct
+        from harness import climain
+        argv = ["server-mode", str(req["room"])]
+        if "port" in req:
+            argv += ["--port", str(req["port"])]
+        if "id" in req:
+            argv += ["-i", str(req["id"])] if req["id"] % 2 else ["--id=" + str(req["id"])]
+        r = climain.run(argv)
+        if r.get("outcome") != "built":
+            return {"outcome": r.get("outcome"), "detail": str(r.get("exc") or r.get("code"))[:100]}
+        f2b = lambda x: struct.unpack("<Q", struct.pack("<d", float(x)))[0]      # noqa: E731
+        rh, bot = list(r["rhythm_args"].values()), list(r["bot"].values())
+        inner = getattr(r["rhythm"], "_inner_rhythm", r["rhythm"])
+        out = {"url": r["tower_args"][1], "udi": bot[2], "sar": bot[3], "call_comps": bot[4], "name": bot[6],
+               "server_id": bot[7] if len(bot) > 7 else None, "peal_speed": rh[0], "inertia": f2b(rh[1]),
+               "max_bells": rh[2], "gap": f2b(rh[3]), "use_wait": rh[4], "initial_inertia": f2b(rh[5]) if len(rh) > 5 else None,
+               "min_bells": getattr(inner, "_min_bells_in_dataset", None),
+               "placeholder": type(r["gen"]).__name__ == "PlaceHolderGenerator", "room": r["tower_args"][0]}
+        return out
 
     def startup_case(self, rng):
         """The real `main(["server-mode", ...])`: Ringing Room answers the join with the user list, the assignments
@@ -321,6 +356,8 @@ class C19(scen.WorldProp):
                 "handler_crashes": s.handler_crashes, "crashed": None, "exited": False}
 
     def impl(self, req):
+        if req["k"] == "server_cli":
+            return self.impl_server_cli(req)
         if req["k"] == "startup":
             return self.impl_startup(req)
         if req["k"] == "sched":
@@ -328,6 +365,8 @@ class C19(scen.WorldProp):
         return super().impl(req)
 
     def to_model(self, req):
+        if req["k"] == "server_cli":
+            return {k: v for k, v in req.items() if k != "room"}
         if req["k"] == "startup":
             return None
         if req["k"] == "sched":
@@ -337,6 +376,15 @@ class C19(scen.WorldProp):
         return super().to_model(req)
 
     def compare(self, req, ir, mr):
+        if req["k"] == "server_cli":
+            a = {k: v for k, v in ir.items() if k != "room"}
+            b = dict(mr)
+            if a.get("min_bells") is None:
+                a.pop("min_bells", None)
+                b.pop("min_bells", None)
+            if a != b:
+                return f"server-mode construction: impl={a} model={b}"
+            return None
         if req["k"] == "sched":
             if ir["sequential"] != mr["sequential"]:
                 return f"sequential outcomes: impl={ir['sequential']} critical-section model={mr['sequential']}"
@@ -344,6 +392,8 @@ class C19(scen.WorldProp):
         return super().compare(req, ir, mr)
 
     def tag(self, req, reply):
+        if req["k"] == "server_cli":
+            return "server-cli"
         if req["k"] == "startup":
             return "startup:" + ("join-answered-at-once" if req["scenario"]["sync_join"] else "join-answered-1ms-later")
         if req["k"] == "sched":
@@ -353,6 +403,8 @@ class C19(scen.WorldProp):
                              "malformed" if "malformed" in plan else "long" if "long" in plan else "stop")
 
     def nontrivial(self, req, reply):
+        if req["k"] == "server_cli":
+            return "url" in reply
         if req["k"] == "sched":
             return reply["schedules"] > 10
         return len(scen.rings(reply)) > 4
@@ -373,6 +425,14 @@ class C19(scen.WorldProp):
         return None
 
     def oracle(self, req, reply):
+        if req["k"] == "server_cli":
+            if "url" not in reply:
+                return f"server-mode did not get as far as building the Bot: {reply}"
+            if reply["room"] != req["room"] or reply["server_id"] != req.get("id"):
+                return f"server-mode: tower id / instance id {reply['room']} / {reply['server_id']}, given {req['room']} / {req.get('id')}"
+            if "port" in req and reply["url"] != f"http://127.0.0.1:{req['port']}":
+                return f"server-mode: socket server {reply['url']}, the port given is {req['port']}"
+            return None
         if req["k"] == "startup":
             return self.oracle_startup(req, reply)
         if req["k"] == "sched":
